@@ -1210,7 +1210,9 @@ impl Machine {
                 }
                 Instruction::JmpIfNeg(cond, offset) => {
                     let cond_v = self.get_stack(cond as i64);
-                    if Self::get_as::<f64>(cond_v) <= 0.0 {
+                    // The then-branch is taken only when the condition is greater than zero
+                    // (NaN is not), exactly like the `f64.gt` test of the WASM backend.
+                    if !(Self::get_as::<f64>(cond_v) > 0.0) {
                         increment = offset;
                     }
                 }
